@@ -91,6 +91,14 @@ def gen_scenario(rng):
         cfg["t2"]["ranking"] = {"alpha_sim": 0.3, "beta_recency": 1.0, "gamma_importance": 0.0}
         cfg["t2"]["exact_recent_days"] = 30
         cfg["t2"].pop("tiers", None)
+    if rng.random() < 0.25:
+        # the same request repeated (same agent, text, logical time) with the stage caches on: the hit paths run
+        for t in turns[1:]:
+            if rng.random() < 0.7:
+                t["agent"], t["text"], t["now_ms"] = turns[0]["agent"], turns[0]["text"], turns[0]["now_ms"]
+        cfg["t1"]["cache"] = {"enabled": True, "ttl_s": rng.choice([0, 0, 300])}
+        cfg["t2"]["cache"] = {"enabled": True, "ttl_s": rng.choice([0, 0, 300])}
+        cfg["t4"]["cache"] = {"enabled": True, "namespaces": ["t2:semantic"], "ttl_sec": rng.choice([0, 600])}
     # some scenarios boot from an (empty) snapshot directory: the first turn runs the real boot loader
     sc = {"world": world, "cfg": cfg, "turns": turns, "boot_from_snapshot": boot}
     if len(turns) >= 3 and rng.random() < 0.3:
@@ -108,7 +116,7 @@ def gen_scenario(rng):
 
 def variants_for(sc, rng, tier):
     vs = [("hash", {"PYTHONHASHSEED": "1"}, {}), ("hash", {"PYTHONHASHSEED": "4242"}, {}), ("hash", {"PYTHONHASHSEED": "random"}, {}),
-          ("clock", {}, {"vclock": {"pc_step": 0.0, "wall": 1.0e9, "wall_step": 0.0}}),
+          ("clock", {}, {"vclock": {"pc_step": 0.0, "wall": 1.0e9, "wall_step": 0.0, "global_wall": 1.0e9}}),
           ("clock", {}, {"vclock": {"pc_step": 0.0137, "wall": 4.0e9, "wall_step": -3.5}}),
           ("warm", {}, {"warm": True}),
           ("warm-perturbed", {}, {"warm_perturbed": True}),
